@@ -208,7 +208,9 @@ CLAIMED = {
                 "model: remove_all with the environment removing entries between any two of its system calls (what every other remove_all "
                 "caller does; the listing of a pass goes stale) reports success with the name gone for EVERY interleaving, on trees with "
                 "unique short plain names (C13_converges_under_racing_removers); without interference that semantics is rm_all "
-                "(C13_interference_free_is_spec). "
+                "(C13_interference_free_is_spec). The tree premises (and, for trees built without moving a directory, the depth bound) are "
+                "invariants of every tree the modelled operations can produce: C13_every_reachable_tree_satisfies_the_premises, "
+                "C13_remove_all_terminates_on_reachable_trees (fuel #objects + #entries + 6). "
                 "Runtime: whole-sandbox snapshots on deep/wide subtrees with links to siblings/parents/outside x path spellings (difference must "
                 "be exactly the named entry and what is below it), 2-4 racing callers per path, and links swapped in at every boundary of a running remove_all.",
         "note": COMMON_NOTE + "Partial: the race theorem is about environments that only remove and says nothing about termination; the real "
